@@ -273,6 +273,15 @@ def mon_c07(run, case, stmts):
                       f"{e['path']}: branch body entered (clk {e['clk']}) in invocation {e['inv']} after {o['path']} had already suspended to its caller (clk {o['clk']}): it runs on behind the suspension")
                 break
     for inv in run.invocations:
+        if inv.get("outcome") == "time_cap":
+            # the virtual-time cap is a budget: an invocation that still got records accepted in the last 40 % of its
+            # time is slow (e.g. every response paged into dozens of 0.2 s calls), not stuck - inconclusive
+            t0, t1 = inv.get("t0", 0.0), inv.get("t1", 0.0)
+            late = [a for a in run.backend.api if a["inv"] == inv["inv"] and a.get("kind") == "checkpoint" and a.get("applied") and a.get("updates")
+                    and a.get("t_start", 0.0) > t0 + 0.6 * (t1 - t0)]
+            if late:
+                inv["slow_but_progressing"] = len(late)
+                continue
         if inv.get("outcome") in ("deadlock", "time_cap"):
             run.v("C07", "invocation_never_returns", inv["outcome"],
                   f"invocation {inv['inv']} ended in {inv['outcome']}: blocked tasks {inv.get('deadlock_info')}")
